@@ -695,6 +695,176 @@ func c19ArgList(s *source, a ast.Expr) (string, error) {
 	return "[" + strings.Join(items, ", ") + "]", nil
 }
 
+// ---------------------------------------------------------------------------------------------------------
+// stringx.Randn (round 4): constants with shifts, and the decision-making expressions of the loop translated.
+
+// c19ConstEval evaluates an integer constant expression of file rel, including shifts and masks
+// (the shared evaluator has none).  Go's precedence is in the AST.
+func c19ConstEval(s *source, rel string, e ast.Expr) (constant.Value, bool) {
+	switch x := e.(type) {
+	case *ast.BasicLit:
+		v := constant.MakeFromLiteral(x.Value, x.Kind, 0)
+		return v, v.Kind() == constant.Int
+	case *ast.ParenExpr:
+		return c19ConstEval(s, rel, x.X)
+	case *ast.Ident:
+		f := s.file(rel)
+		if f == nil {
+			return nil, false
+		}
+		for _, d := range f.Decls {
+			gd, ok := d.(*ast.GenDecl)
+			if !ok || gd.Tok != token.CONST {
+				continue
+			}
+			for _, sp := range gd.Specs {
+				vs := sp.(*ast.ValueSpec)
+				for i, n := range vs.Names {
+					if n.Name == x.Name && i < len(vs.Values) {
+						return c19ConstEval(s, rel, vs.Values[i])
+					}
+				}
+			}
+		}
+	case *ast.CallExpr:
+		// len(<string constant>)
+		if s.src(x.Fun) == "len" && len(x.Args) == 1 {
+			if id, ok := x.Args[0].(*ast.Ident); ok {
+				if v, ok := s.constValue(rel, id.Name); ok && v.Kind() == constant.String {
+					return constant.MakeInt64(int64(len(constant.StringVal(v)))), true
+				}
+			}
+		}
+	case *ast.BinaryExpr:
+		a, ok1 := c19ConstEval(s, rel, x.X)
+		b, ok2 := c19ConstEval(s, rel, x.Y)
+		if !ok1 || !ok2 {
+			return nil, false
+		}
+		switch x.Op {
+		case token.SHL, token.SHR:
+			n, ok := constant.Uint64Val(b)
+			if !ok || n > 62 {
+				return nil, false
+			}
+			return constant.Shift(a, x.Op, uint(n)), true
+		case token.QUO:
+			if constant.Sign(b) == 0 {
+				return nil, false
+			}
+			return constant.BinaryOp(a, token.QUO_ASSIGN, b), true
+		case token.ADD, token.SUB, token.MUL, token.AND, token.OR:
+			return constant.BinaryOp(a, x.Op, b), true
+		}
+	}
+	return nil, false
+}
+
+// c19Randn emits the constants and the translated index / acceptance / shift expressions of stringx.Randn.
+func c19Randn(s *source, e *emitter, rel string) {
+	for _, c := range []string{"letterIdxMask", "letterIdxMax"} {
+		var val ast.Expr
+		if f := s.file(rel); f != nil {
+			for _, d := range f.Decls {
+				if gd, ok := d.(*ast.GenDecl); ok && gd.Tok == token.CONST {
+					for _, sp := range gd.Specs {
+						vs := sp.(*ast.ValueSpec)
+						for i, n := range vs.Names {
+							if n.Name == c && i < len(vs.Values) {
+								val = vs.Values[i]
+							}
+						}
+					}
+				}
+			}
+		}
+		v, ok := constant.Value(nil), false
+		if val != nil {
+			v, ok = c19ConstEval(s, rel, val)
+		}
+		if !ok {
+			e.errors = append(e.errors, "constant "+c+" of "+rel+" cannot be evaluated")
+			e.printf("def %s : Nat := 0\n\n", c)
+			continue
+		}
+		e.printf("/-- `%s = %s` in %s, evaluated (with Go's precedence) -/\ndef %s : Nat := %s\n\n", c, s.src(val), rel, c, v.ExactString())
+	}
+	fd := s.findFunc(rel, "Randn")
+	fail := func(msg string) {
+		e.errors = append(e.errors, "Randn: "+msg)
+		e.printf("def randnIdx (cache : Nat) : Nat := 0\n\ndef randnAccept (idx : Nat) : Bool := false\n\ndef randnShift : Nat := 0\n\n")
+	}
+	if fd == nil {
+		fail("function not found")
+		return
+	}
+	var ifIdx *ast.IfStmt
+	var shift *ast.AssignStmt
+	ast.Inspect(fd.Body, func(n ast.Node) bool {
+		switch x := n.(type) {
+		case *ast.IfStmt:
+			if as, ok := x.Init.(*ast.AssignStmt); ok && len(as.Lhs) == 1 && s.src(as.Lhs[0]) == "idx" {
+				ifIdx = x
+			}
+		case *ast.AssignStmt:
+			if x.Tok == token.SHR_ASSIGN && len(x.Lhs) == 1 && s.src(x.Lhs[0]) == "cache" {
+				shift = x
+			}
+		}
+		return true
+	})
+	if ifIdx == nil || shift == nil {
+		fail("no `if idx := …; …` statement or no `cache >>= …`")
+		return
+	}
+	// idx := int(cache & MASK)
+	rhs := ifIdx.Init.(*ast.AssignStmt).Rhs[0]
+	if c, ok := rhs.(*ast.CallExpr); ok && s.src(c.Fun) == "int" && len(c.Args) == 1 {
+		rhs = c.Args[0]
+	}
+	be, ok := rhs.(*ast.BinaryExpr)
+	if !ok || be.Op != token.AND || s.src(be.X) != "cache" {
+		fail("index expression is not `cache & <constant>`: " + s.src(rhs))
+		return
+	}
+	mask, ok := c19ConstEval(s, rel, be.Y)
+	if !ok || constant.Sign(mask) < 0 {
+		fail("mask is not a constant")
+		return
+	}
+	// cond: idx <op> <constant>
+	ce, ok := ifIdx.Cond.(*ast.BinaryExpr)
+	ops := map[token.Token]string{token.LSS: "<", token.LEQ: "≤", token.GTR: ">", token.GEQ: "≥", token.EQL: "=", token.NEQ: "≠"}
+	if !ok || s.src(ce.X) != "idx" || ops[ce.Op] == "" {
+		fail("acceptance condition is not `idx <op> <constant>`: " + s.src(ifIdx.Cond))
+		return
+	}
+	bound, ok := c19ConstEval(s, rel, ce.Y)
+	if !ok || constant.Sign(bound) < 0 {
+		fail("acceptance bound is not a constant")
+		return
+	}
+	sh, ok := c19ConstEval(s, rel, shift.Rhs[0])
+	if !ok || constant.Sign(sh) < 0 {
+		fail("shift width is not a constant")
+		return
+	}
+	// the accepted index selects the character: b[i] = letterBytes[idx]
+	sel := false
+	for _, st := range ifIdx.Body.List {
+		if as, ok := st.(*ast.AssignStmt); ok && len(as.Rhs) == 1 && s.src(as.Rhs[0]) == "letterBytes[idx]" {
+			sel = true
+		}
+	}
+	if !sel {
+		fail("accepted index does not select `letterBytes[idx]`")
+		return
+	}
+	e.printf("/-- the index Randn reads from the cached random bits: `%s` -/\ndef randnIdx (cache : Nat) : Nat := cache &&& %s\n\n", s.src(ifIdx.Init), mask.ExactString())
+	e.printf("/-- is the index used (`%s`)? otherwise it is thrown away (rejection sampling) -/\ndef randnAccept (idx : Nat) : Bool := decide (idx %s %s)\n\n", s.src(ifIdx.Cond), ops[ce.Op], bound.ExactString())
+	e.printf("/-- bits consumed per index: `%s` -/\ndef randnShift : Nat := %s\n\n", s.src(shift), sh.ExactString())
+}
+
 func init() {
 	register("C19", func(s *source, e *emitter) {
 		const f = "core/stores/redis/redislock.go"
@@ -927,6 +1097,7 @@ func init() {
 		// (the shared constant evaluator has no shifts: the two derived constants are tied as source text)
 		e.stringList("letterIdxDerived", "`letterIdxMask` and `letterIdxMax` as written", []string{
 			"letterIdxMask = " + constSrc(s, rf, "letterIdxMask"), "letterIdxMax = " + constSrc(s, rf, "letterIdxMax")})
+		c19Randn(s, e, rf)
 		if fd := s.findFunc(rf, "Randn"); fd == nil {
 			e.errors = append(e.errors, "function Randn not found in "+rf)
 			e.stringList("randnBody", "MISSING", []string{"MISSING"})
